@@ -385,6 +385,9 @@ theorem parsed_gradient_svg_safe (css id : List Char) (g : Gradient) (q : List C
   exact gradient_svg_safe g id x1 y1 x2 y2 (parseGradient_type css g hp) hid (isPct_plain a1) (isPct_plain a2)
     (isPct_plain a3) (isPct_plain a4)
 
+/-- the hypotheses of the in-context theorems are satisfiable: the state before the root element -/
+example : st0.mode = .content 0 ∧ Clean st0 ∧ (st0.stack.isEmpty && st0.rootSeen) = false := ⟨rfl, clean_st0, rfl⟩
+
 /-! ## the escaped form denotes the user's string -/
 
 theorem decode_fold_append (st : Option (List Char) × List Char) (a b : List Char) :
@@ -434,5 +437,11 @@ theorem C30_cx_gradient_stop :
     "script".toList ∈ elementNames
       (events (gradientToSVGUnescaped cxGrad "grad-0".toList ("0%".toList, "0%".toList, "0%".toList, "100%".toList))) := by
   decide
+
+/-- the hypotheses of `gradient_svg_safe` are satisfiable, and on the DESIGN §7 witness the fixed emitter is safe
+    where the unfixed one injects `<script>` (`C30_cx_gradient_stop`) -/
+example : wf (gradientToSVG cxGrad "grad-0".toList ("0%".toList, "0%".toList, "0%".toList, "100%".toList)) = true ∧
+    shapeOk cxGrad (events (gradientToSVG cxGrad "grad-0".toList ("0%".toList, "0%".toList, "0%".toList, "100%".toList))) = none :=
+  gradient_svg_safe cxGrad _ _ _ _ _ (Or.inl rfl) (by decide) (by decide) (by decide) (by decide) (by decide)
 
 end D2V.C30
